@@ -30,6 +30,10 @@ func c12(c *Ctx) {
 	for _, pk := range []string{eniPkg, daemonPkg, "types/daemon", "types", pluginPkg, "rpc"} {
 		fns = append(fns, c.P.FuncsInPkg(pk)...)
 	}
+	c12R7(c)
+	// an address handed out belongs to the interface it is reported with: the sets of a deleted
+	// interface are emptied for both families (shared rule)
+	c01R11(c)
 	ruleMakeThenAppend(c, "C12.R6", fns, "configuration entries (routes, addresses, interfaces) handed from the daemon to the plugin")
 }
 
@@ -649,6 +653,33 @@ func c12R5(c *Ctx) {
 		return true
 	})
 	c.Check(got["egress"] && got["ingress"], "C12.R5", "both directions have an override", p.Pos(fn.Decl), fn.Key(), "egress and ingress", fmt.Sprintf("%v", got))
+	// precedence: the runtime's value is the last word — a limit variable is not assigned from the
+	// daemon's answer after it took the runtime's override
+	q := NewPathQuery(p, fn, nil)
+	n := 0
+	ast.Inspect(fn.Decl.Body, func(nd ast.Node) bool {
+		as, ok := nd.(*ast.AssignStmt)
+		if !ok || len(as.Lhs) != 1 || len(as.Rhs) != 1 || !strings.Contains(derefString(fn, as.Rhs[0]), ".Bandwidth.") {
+			return true
+		}
+		v := identObj(info, as.Lhs[0])
+		if v == nil {
+			return true
+		}
+		n++
+		var w []ast.Node
+		for _, d := range varDefs(fn, v) {
+			if d.node == ast.Node(as) || d.rhs == nil || strings.Contains(derefString(fn, d.rhs), ".Bandwidth.") {
+				continue
+			}
+			if w == nil {
+				w = q.Escapes(isExactly(as), isExactly(d.node), nil, nil)
+			}
+		}
+		c.Check(w == nil, "C12.R5", "the runtime override of "+v.Name()+" is not overwritten afterwards", p.Pos(as), fn.Key(), "never-before: runtime override → another assignment of "+v.Name(), "path: "+p.describePath(w))
+		return true
+	})
+	c.Floor("C12.R5", "runtime overrides", 2, n)
 }
 
 func sortedObjs(m map[types.Object]bool) []types.Object {
@@ -658,4 +689,99 @@ func sortedObjs(m map[types.Object]bool) []types.Object {
 	}
 	sort.Slice(out, func(i, j int) bool { return out[i].Pos() < out[j].Pos() })
 	return out
+}
+
+// R7: the interface description is complete or absent. ENIMetadata.GetENIByMac
+// reads id, primary address, gateway and subnet (per family) from the metadata
+// service; an error of any of these reads makes it fail — with the error
+// non-nil (followed through copies) no exit reports success. An interface
+// adopted with a subnet but without that subnet's gateway would make every
+// later ADD served from it return an address with no gateway.
+func c12R7(c *Ctx) {
+	p := c.P
+	c.Rule("C12.R7", "ENIMetadata.GetENIByMac fails when any metadata read fails: with the error of a metadata getter non-nil, every exit returns a non-nil error (no read of a gateway / subnet is tolerated away, so a described interface has both for each family it carries)")
+	fn := p.Func("pkg/aliyun/eni", "ENIMetadata.GetENIByMac")
+	if fn == nil {
+		c.Unres("C12.R7", "ENIMetadata.GetENIByMac", "not found")
+		return
+	}
+	n := stickyErrors(c, "C12.R7", fn, func(f *types.Func) bool {
+		return f.Pkg() != nil && strings.HasSuffix(f.Pkg().Path(), "pkg/aliyun/metadata")
+	}, "metadata read")
+	c.Floor("C12.R7", "metadata reads in GetENIByMac", 5, n)
+}
+
+// stickyErrors: for every call in fn selected by pick whose last result is an error bound to a
+// variable, with that error forced non-nil every exit of fn returns a non-nil error.
+func stickyErrors(c *Ctx, rule string, fn *FuncInfo, pick func(*types.Func) bool, what string) int {
+	p := c.P
+	info := fn.Info()
+	sig := fn.Obj.Type().(*types.Signature)
+	ei := errResultIndex(sig)
+	if ei < 0 {
+		return 0
+	}
+	var errVars []types.Object
+	seenE := map[types.Object]bool{}
+	ast.Inspect(fn.Decl, func(k ast.Node) bool {
+		if id, ok := k.(*ast.Ident); ok {
+			if v, ok := info.ObjectOf(id).(*types.Var); ok && !v.IsField() && !seenE[v] && v.Type().String() == "error" && len(errVars) < 14 {
+				seenE[v] = true
+				errVars = append(errVars, v)
+			}
+		}
+		return true
+	})
+	n := 0
+	for _, cs := range p.CallsIn(fn) {
+		if cs.Callee == nil || cs.Lit != nil || !pick(cs.Callee) {
+			continue
+		}
+		csig, _ := cs.Callee.Type().(*types.Signature)
+		if csig == nil || errResultIndex(csig) < 0 {
+			continue
+		}
+		as, lhs := assignedFromCall(fn, cs.Call)
+		if as == nil || len(lhs) == 0 || lhs[len(lhs)-1] == nil {
+			if _, isRet := parentStmt(fn, cs.Call).(*ast.ReturnStmt); isRet {
+				continue // forwarded as the function's own result
+			}
+			n++
+			c.Bad(rule, fn.Name+": the error of the "+what+" "+cs.Callee.Name()+" is bound", p.Pos(cs.Call), fn.Key(), "x, err := …", "error discarded")
+			continue
+		}
+		n++
+		errObj := lhs[len(lhs)-1]
+		q := NewPathQuery(p, fn, nil)
+		q.TrackNils = errVars
+		q.StartNil = map[types.Object]int{errObj: nilNo}
+		q.ExitState = func(ret *ast.ReturnStmt, st int) bool {
+			var x types.Object
+			switch {
+			case len(ret.Results) == 0:
+				x = sig.Results().At(ei)
+			case len(ret.Results) == sig.Results().Len():
+				if nonNilProducer(info, ret.Results[ei]) {
+					return true
+				}
+				x = identObj(info, ret.Results[ei])
+			}
+			return x != nil && q.nilStateOf(x, st) == nilNo
+		}
+		w := q.Escapes(isExactly(as), nil, nil, nil)
+		c.Check(w == nil, rule, fn.Name+": a failed "+what+" "+cs.Callee.Name()+" makes the function fail", p.Pos(cs.Call), fn.Key(), "with err != nil after the call every exit returns a non-nil error", "path to an exit that can report success: "+p.describePath(w))
+	}
+	return n
+}
+
+func parentStmt(fn *FuncInfo, n ast.Node) ast.Stmt {
+	var st ast.Stmt
+	for _, x := range pathTo(fn.Decl.Body, n) {
+		if s, ok := x.(ast.Stmt); ok {
+			if _, isBlock := s.(*ast.BlockStmt); !isBlock {
+				st = s
+			}
+		}
+	}
+	return st
 }
